@@ -225,6 +225,16 @@ impl ValidationOutputFilters {
 // ---- the assertions -----------------------------------------------------------------------
 //@item src/slurm.rs :: pub struct PrefixAssertion
 //@item src/slurm.rs :: pub struct AspaAssertion
+//@item src/slurm.rs :: pub struct BgpsecAssertion
+//@item src/slurm.rs :: pub struct Base64KeyInfo pubfields
+impl BgpsecAssertion {
+    //@fn src/slurm.rs :: impl BgpsecAssertion :: to_payload
+    //@spec
+        ensures r matches rtr::Payload::RouterKey(k) && k.key_identifier == self.ski && k.asn == self.asn
+                && rki_view(k.key_info) == rki_view(self.router_public_key.0),
+    //@/spec
+    //@end
+}
 impl PrefixAssertion {
     //@fn src/slurm.rs :: impl PrefixAssertion :: to_payload
     //@spec
